@@ -106,9 +106,18 @@ static void stage_corpus(Run &R) {
     for (const Bytes &l : corpus_lines(R.a.datadir)) { if ((int) (i++ % R.a.nworkers) != R.a.worker) continue; if (!run_one(R, l, KD->default_mask())) return; if (!run_one(R, l, 0)) return; R.count("corpus-lines"); }
 }
 
+#ifndef VF_FUZZ
 int main(int argc, char **argv) {
     return std_main(argc, argv, "C16", {{"bounded", stage_bounded}, {"forms", stage_forms}, {"random", stage_random}, {"corpus", stage_corpus}},
         [](Run &R, const Case &c) { return check_one(R, c.getb("addr"), (int) c.geti("mask")); }, [] { return g_case; },
         [](Run &R) { KD = new Core(&dflt_api); KX = new Core(&extra_api); return KD->init(R.a.datadir) && KX->init(R.a.datadir) && extra_api.has_extra == 1 && dflt_api.has_extra == 0; },
         [] { delete KD; delete KX; });
 }
+#else
+VF_FUZZ_TARGET("C16", [](Run &R) { KD = new Core(&dflt_api); KX = new Core(&extra_api); return KD->init(R.a.datadir) && KX->init(R.a.datadir); },
+    [](Run &R, const uint8_t *d, size_t n) -> std::optional<Failure> {
+        if (n < 2) return std::nullopt;
+        int mask = (d[n - 1] | (d[n - 2] << 8)) % 2048; if (d[n - 1] & 0x80) mask = KD->default_mask();
+        Bytes a = fuzz_bytes(d, n - 2); R.sample("fuzz", show(a.substr(0, 80)), 4);
+        return check_one(R, a, mask); })
+#endif
